@@ -489,14 +489,34 @@ class LibMixin:
         return [(start + i, x) for i, x in enumerate(self.iterate(a[0]))]
 
     def bi_sorted(self, I, a, k):
-        items = self.iterate(a[0])
-        if k.get('key') is not None or k.get('reverse'):
-            raise Unsupported('sorted with key')
-        if all(isinstance(x, (int, float, str)) for x in items):
-            return sorted(items)
-        if all(isinstance(x, tuple) and all(isinstance(y, int) for y in x) for x in items):
-            return sorted(items)
-        raise Unsupported('sorted of symbolic values')
+        src = a[0]
+        keyf = k.get('key')
+        if isinstance(src, CSet):
+            items = list(src.items)     # order of a set: harmless iff the sort keys cannot tie (checked below)
+        else:
+            items = self.iterate(src)
+        if k.get('reverse'):
+            raise Unsupported('sorted(reverse=True)')
+        keys = [self.call(keyf, [x], {}) for x in items] if keyf is not None else list(items)
+        if all(isinstance(x, (int, float, str)) for x in keys) or all(
+                isinstance(x, tuple) and all(isinstance(y, int) for y in x) for x in keys):
+            order = sorted(range(len(items)), key=lambda i: keys[i])
+            return [items[i] for i in order]
+        if not all(is_intlike(x) for x in keys):
+            raise Unsupported('sorted of symbolic non-integer keys')
+        if isinstance(src, CSet) and len(items) > 1:
+            if not self.valid(z3.Distinct(*[zint(x) for x in keys])):
+                self.note_effect('set_order', 'sorted() of a set whose keys may tie')
+        # compare-exchange network (bubble sort) on (key, item) pairs, merged with if-then-else
+        pairs = list(zip(keys, items))
+        n = len(pairs)
+        for i in range(n):
+            for j in range(n - 1 - i):
+                (k1, v1), (k2, v2) = pairs[j], pairs[j + 1]
+                sw = self.truth_term(self.compare(ast.Gt(), k1, k2))
+                pairs[j] = (self.merge(sw, k2, k1), self.merge(sw, v2, v1))
+                pairs[j + 1] = (self.merge(sw, k1, k2), self.merge(sw, v1, v2))
+        return [v for _, v in pairs]
 
     def bi_reversed(self, I, a, k):
         return list(reversed(self.iterate(a[0])))
